@@ -17,7 +17,7 @@ def check(tier, seed):
                  # the race detector: the handler's output path and option handling are shared between the two goroutines
                  dict(name='uci_sessions_race', kind="monitor", shards=lambda t: 2 if t == "quick" else 8,
                       args=lambda t, s, sh, path: ['c12-monitor', 2 if t == "quick" else 30, s * 1000 + 770 + sh], race=True,
-                      violation_kinds=["no-bestmove", "bestmove-count", "readyok-missing", "isready-not-answered-while-searching", "stop-not-prompt", "uciok-missing"])])
+                      violation_kinds=["bestmove-count", "readyok-missing", "uciok-missing"])])  # no wall-clock kinds here: under the race detector and a loaded machine times mean nothing; this stream is for race reports and lost answers
 
 
 def replay(path):
